@@ -157,11 +157,34 @@ def composite_units() -> List[Unit]:
     lim_a = L.Message("Limits", [L.Field("lo", 1, L.Int(5))])
     motor = L.Message("Motor", [L.Field("history", 1, L.Array(mode_a, 2)), L.Field("lims", 2, L.Array(lim_a, 2)), L.Field("cur", 3, mode_a)],
                       nested=[mode_a, lim_a])
-    mode_b = L.Enum("Mode", 6, [("R_OFF", 0), ("R_FAST", 41)])
+    mode_b = L.Enum("Mode", 11, [("R_OFF", 0), ("R_FAST", 1441)])     # another storage width than Motor.Mode (uint8_t vs uint16_t)
     lim_b = L.Message("Limits", [L.Field("lo", 1, L.Int(11)), L.Field("hi", 2, L.Uint(9))])
     radio = L.Message("Radio", [L.Field("history", 1, L.Array(mode_b, 2)), L.Field("lims", 2, L.Array(lim_b, 2)), L.Field("cur", 3, mode_b)],
                       nested=[mode_b, lim_b])
     out.append(Unit("composite:same-named-nested", L.Schema("t_same", [motor, radio]), [motor, radio], tags=("composite", "traditional")))
+    # --- an array field inside a message that is itself an array element (index stack depth 2 through a message boundary)
+    sample = L.Message("Sample", [L.Field("vals", 1, L.Array(L.Uint(4), 3)), L.Field("z", 2, L.Int(5))])
+    frame = L.Message("Frame", [L.Field("samples", 1, L.Array(sample, 2)), L.Field("tail", 2, L.Bool())])
+    out.append(Unit("composite:array-in-array-element", L.Schema("t_aiae", [sample, frame]), [sample, frame], tags=("composite", "traditional")))
+    # --- alias of an array of messages, used directly, as array element (2-D array of messages) and through a second alias
+    cell = L.Message("Cell", [L.Field("a", 1, L.Uint(3)), L.Field("b", 2, L.Int(6))])
+    row = L.Alias("Row", L.Array(cell, 2))
+    table = L.Alias("Table", L.Array(row, 2))
+    grid = L.Message("Grid", [L.Field("rows", 1, L.Array(row, 2)), L.Field("last", 2, row), L.Field("t", 3, L.Uint(2))])
+    grid2 = L.Message("Grid2", [L.Field("tb", 1, table), L.Field("t", 2, L.Uint(2))])
+    out.append(Unit("composite:alias-of-message-array", L.Schema("t_aoma", [cell, row, table, grid, grid2]), [grid, grid2],
+                    tags=("composite", "traditional")))
+    # --- importer and imported file declare the same names and carry different C name prefixes
+    l_level = L.Enum("Level", 5, [("LEVEL_NONE", 0), ("LEVEL_HI", 17)])
+    l_point = L.Message("Point", [L.Field("x", 1, L.Int(12)), L.Field("y", 2, L.Int(12))])
+    plib = L.Schema("plib", [l_level, l_point], options=['c.name_prefix = "lib_"'])
+    a_level = L.Enum("Level", 2, [("LEVEL_ZERO", 0), ("LEVEL_ONE", 1)])
+    a_point = L.Message("Point", [L.Field("q", 1, L.Uint(3))])
+    use = L.Message("Use", [L.Field("p", 1, l_point), L.Field("l", 2, l_level), L.Field("own", 3, a_point), L.Field("ol", 4, a_level),
+                            L.Field("ps", 5, L.Array(l_point, 2)), L.Field("z", 6, L.Uint(4))])
+    out.append(Unit("composite:prefixed-imports", L.Schema("t_pfx", [a_level, a_point, use], imports=[(plib, None)],
+                                                             options=['c.name_prefix = "app_"']), [a_point, use],
+                    tags=("composite", "imports", "traditional")))
     # --- long field names (the C JSON key is written by one formatted call)
     ln = L.Message("LongNames", [L.Field("a_field_name_that_is_forty_characters_xx", 1, L.Uint(9)),
                                  L.Field("b" * 64, 2, L.Int(7)), L.Field("brief", 3, L.Bool())])
